@@ -272,3 +272,82 @@ def rule_V1(ctx, rid='V1'):
            'log_l is built from the likelihood\'s return values by packaging only' if not bad
            else 'log_l passes through `%s` (line %d): the stored value is not the value the '
            'likelihood returned for that point' % (bad[0][1], bad[0][0]))
+
+
+def rule_N4(ctx, rid='N4', floor=3):
+    """A list of per-member results (`[bound.contains(points) for bound in members]`) stacks the
+    MEMBERS along axis 0 and the points along axis 1.  Its reduction to a per-point answer is
+    over axis 0; `axis=1` (or no axis) reduces over the points - with a single member the result
+    broadcasts silently against the per-point mask."""
+    ctx.rule(rid, 'member-axis: a reduction of a list of per-member contains() results is taken '
+             'over axis 0 (the members)')
+    n = 0
+    for f in sorted(ctx.program.functions.values(), key=lambda x: x.qualname):
+        for c in walk_no_nested(f.node):
+            if not (isinstance(c, ast.Call) and (dotted(c.func) or '') in (
+                    'np.any', 'np.all', 'np.sum', 'np.amax', 'np.max', 'np.count_nonzero',
+                    'np.logical_or.reduce', 'np.logical_and.reduce') and c.args and
+                    isinstance(c.args[0], ast.ListComp)):
+                continue
+            lc = c.args[0]
+            if not (isinstance(lc.elt, ast.Call) and isinstance(lc.elt.func, ast.Attribute) and
+                    lc.elt.func.attr == 'contains'):
+                continue
+            ax = [k.value for k in c.keywords if k.arg == 'axis']
+            if not ax and len(c.args) > 1:
+                ax = [c.args[1]]
+            ok = bool(ax) and isinstance(ax[0], ast.Constant) and ax[0].value == 0
+            n += 1
+            ctx.ob(rid, '%s:member-axis' % f.qualname, ok, f.where(c),
+                   'reduced over the members' if ok else
+                   '`%s` does not reduce over axis 0: the answer is no longer one value per point '
+                   '(with a single member it broadcasts against the per-point mask and every '
+                   'point gets the same verdict)' % unparse(c)[:70])
+    ctx.require(n >= floor, 'N4 found only %d member reductions (floor %d)' % (n, floor))
+    return n
+
+
+def rule_G8(ctx, rid='G8'):
+    """Every pool job of NautilusBound.sample draws from its OWN child generator: the list handed
+    to pool.map is built element by element from `SeedSequence(..).spawn(n_jobs)`.  A replicated
+    list (`spawn(1) * n_jobs`, `[rng] * n_jobs`) gives every job the same stream: the jobs return
+    identical points, which are all appended - proposals are duplicated n_jobs times."""
+    ctx.rule(rid, 'one-stream-per-job: the generators handed to the pool come one each from '
+             'SeedSequence.spawn(number of jobs)')
+    f = ctx.program.func('NautilusBound.sample')
+    maps = [c for c in walk_no_nested(f.node) if isinstance(c, ast.Call) and
+            isinstance(c.func, ast.Attribute) and c.func.attr == 'map' and len(c.args) == 2]
+    ctx.require(maps, 'G8: pool.map call not found in NautilusBound.sample')
+    n = 0
+    for m in maps:
+        it = m.args[1]
+        if isinstance(it, ast.Name):
+            ds = [x.value for x in walk_no_nested(f.node) if isinstance(x, ast.Assign) and
+                  len(x.targets) == 1 and isinstance(x.targets[0], ast.Name) and
+                  x.targets[0].id == it.id]
+            ctx.require(len(ds) == 1, 'G8 not decided: `%s` bound %d times' % (it.id, len(ds)))
+            it = ds[0]
+        ctx.require(isinstance(it, (ast.ListComp, ast.BinOp, ast.List, ast.Call)),
+                    'G8 not decided: job arguments `%s`' % unparse(it)[:50])
+        ok = False
+        why = 'not a comprehension over SeedSequence.spawn(..)'
+        if isinstance(it, ast.ListComp) and len(it.generators) == 1:
+            src = it.generators[0].iter
+            if isinstance(src, ast.Call) and isinstance(src.func, ast.Attribute) and \
+                    src.func.attr == 'spawn' and src.args:
+                cnt = src.args[0]
+                sizes = {'n_jobs', 'pool.size'}
+                ok = unparse(cnt) in sizes or (isinstance(cnt, ast.Name) and any(
+                    isinstance(x, ast.Assign) and isinstance(x.targets[0], ast.Name) and
+                    x.targets[0].id == cnt.id and unparse(x.value) == 'pool.size'
+                    for x in walk_no_nested(f.node)))
+                why = 'spawn(%s) is not the number of jobs' % unparse(cnt)
+            elif isinstance(src, ast.BinOp):
+                why = 'the spawned children are replicated (`%s`)' % unparse(src)[:40]
+        n += 1
+        ctx.ob(rid, 'NautilusBound.sample:one-stream-per-job', ok, f.where(m),
+               'each job receives its own child of one SeedSequence' if ok else
+               'the generators of the pool jobs are %s: jobs sharing a stream return identical '
+               'points, all of which are kept (duplicated proposals, volume estimate from '
+               'correlated draws)' % why)
+    return n
